@@ -5,12 +5,20 @@
    - EVERY acknowledgement, including those served from the cache, a cache file taken over by a
      restarted instance, or a rolled-back cache (EvCacheDrop), names an index that really holds an
      entry with that dedup identity and timestamp (so losing the cache can only make the
-     sequencer add a duplicate leaf, never give a wrong answer);
+     sequencer add a duplicate leaf, never give a wrong answer); the event set of [run] includes
+     cmd/recompute-cache (EvRecompute: any instance's cache file, any key, killed after any number
+     of inserted rows), so the statement covers a cache rebuilt, partially rebuilt or topped up by
+     the tool, while the log is running or not;
+   - a run of the tool that ends with "ok" leaves a row for every entry of the full tiles of the
+     published tree (of the whole tree when it has no full tile): deduplication is restored;
    - the dedup identity depends only on (type, issuer key hash if precertificate, certificate/TBS).
    Not covered here: byte-identity of the SCT signature (RFC 6979 determinism is observed by the
-   C11 harness), the legacy 128-bit cache table, and equality of the two copies of
-   computeCacheHash (ctlog.go / cmd/recompute-cache), which the harness exercises. *)
-From SL Require Import Ctlog.Model Ctlog.Spec Ctlog.Inv2 Ctlog.Theorems2.
+   C11 harness) and the legacy 128-bit cache table (its soundness rests on second-preimage
+   resistance of a truncated hash, which no theorem over an arbitrary [sha] can give). The two
+   copies of computeCacheHash (ctlog.go / cmd/recompute-cache) are one function in the model
+   (ckey / leaf_ckey); that the tool's copy computes it is what the correspondence run checks by
+   running the real binary (cache rows compared row by row, monitor C07.cacherow). *)
+From SL Require Import Ctlog.Model Ctlog.Spec Ctlog.Inv2 Ctlog.Theorems2 Ctlog.Example.
 
 Theorem C07_resubmission_joins_pending : forall sha c p inseq cache e low victim wid wd,
   in_pool sha p (ckey sha e) = Some wd \/ (in_pool sha p (ckey sha e) = None /\ in_pool sha inseq (ckey sha e) = Some wd) ->
@@ -40,3 +48,23 @@ Theorem C07_identity : forall sha e1 e2,
   ckey sha e1 = ckey sha e2.
 Proof. exact ckey_only_identity. Qed.
 Print Assumptions C07_identity.
+
+Theorem C07_recompute_restores_dedup : forall (sha : bytes -> bytes) evs i key x p ls,
+  let w := run sha evs init in
+  get_inst (w_insts w) i = Some x ->
+  published w = Some p -> hist_leaves (w_lockhist w) p = Some ls ->
+  In (ObsNote "recompute-ok") (snd (step sha w (EvRecompute i key None))) ->
+  exists x', get_inst (w_insts (fst (step sha w (EvRecompute i key None)))) i = Some x' /\
+    forall j sl, (N.of_nat j < rc_top (cp_size p))%N -> nth_error ls j = Some sl ->
+      cache_get (i_cache x') (leaf_ckey sha (sl_leaf sl)) <> None.
+Proof. exact recompute_restores_dedup. Qed.
+Print Assumptions C07_recompute_restores_dedup.
+
+(* non-vacuity: after a cache loss the tool ends with "ok" and the lost row is back *)
+Example C07_recompute_example :
+  (match get_inst (w_insts world_rc) 0 with Some x => i_cache x | None => [] end) = [] /\
+  In (ObsNote "recompute-ok") (snd (step toy_sha world_rc (EvRecompute 0 7 None))) /\
+  (match get_inst (w_insts (fst (step toy_sha world_rc (EvRecompute 0 7 None)))) 0 with
+   | Some x => cache_get (i_cache x) (ckey toy_sha (ent x31)) | None => None end) = Some (0%N, 20%Z) /\
+  snd (step toy_sha world_rc (EvRecompute 0 8 None)) = [ObsNote "recompute-signature"; ObsCache 0 []].
+Proof. vm_compute. repeat split; auto. Qed.
